@@ -67,8 +67,8 @@ public:
     /// Deserialization constructor.
     explicit distribution_parameters(std::istream& in)
     {
-        // consume newline character and read name
-        std::getline(in >> std::ws, name_);
+        // the name is the complete line, it may be empty or start with blanks
+        std::getline(in, name_);
 
         in >> bins_x_ >> x_min_ >> bin_size_x_ >> bins_y_ >> y_min_ >> bin_size_y_;
     }
